@@ -212,11 +212,50 @@ def c12_extra(prop, tier, rng, result):
     budgets = 0
     for im in range(nimg):
         sess.new_case()
-        delta = rng.random() < 0.4
+        delta = (im % 3 == 1) or rng.random() < 0.2      # at least one delta-mode image per run
         sim = build_history(rng, sess, delta, tier)
         s = rng.choice(sim.open_snaps())
-        sess.send('scan %d' % (s + 1))
+        if delta:
+            # make sure the stored snapshot is not empty: a few more items, and store the latest snapshot
+            for k in (1, 4, 7, 10, 13):
+                sess.send('put 0 %d 0' % k)
+            sess.send('snap')
+            sim.refs.append(1)
+            s = len(sim.refs) - 1
+        content = sess.send('scan %d' % (s + 1))
         conc = rng.choice((1, 2, 4))
+        present = [int(x.split(':')[0]) for x in content.split(',')] if content not in ('.', 'nil') else []
+        if delta and present:
+            # Delta mode: the stored snapshot is RELEASED by the backup, items of it are deleted and collected
+            # while the backup runs, so they reach the backup through the delta files only and the order in which
+            # data and delta parts are completed matters. The snapshot can be stored once, so every crash point
+            # replays the history in a fresh case.
+            history = list(sess.lines)
+            # all other references must go, so that the collector can run during the backup
+            closes = []
+            for i in sim.open_snaps():
+                if i != s:
+                    closes += ['close %d' % (i + 1)] * sim.refs[i]
+            churn = ' churn=' + ','.join(map(str, sorted(set(present[:4]))))
+            # first pass: count the file-system steps of this backup
+            for l in closes:
+                sess.send(l)
+            sess.send('crashload %d conc=%d at=100000000%s' % (s + 1, conc, churn))
+            nsteps = int(sess.send('laststeps'))
+            recs.append((list(sess.lines), list(sess.outs)))
+            tail = 50 if tier == 'quick' else 400
+            pts = sorted(set(list(range(max(0, nsteps - tail), nsteps)) + list(range(0, min(nsteps, 8 if tier == 'quick' else 200)))))
+            for i in pts:
+                sess.new_case()
+                for l in history:
+                    sess.send(l)
+                for l in closes:
+                    sess.send(l)
+                sess.send('crashload %d conc=%d at=%d%s' % (s + 1, conc, i, churn))
+                cov['evaluations'] += 1
+                crash_points += 1
+                recs.append((list(sess.lines), list(sess.outs)))
+            continue
         i = 0
         limit = 400 if tier == 'quick' else 5000
         while i < limit:
